@@ -273,6 +273,34 @@ pub fn run(ctx: &mut Ctx) {
         ctx.distinct(&format!("periodic|{}|{}", h[0], h[1]));
         record(ctx, &alpha, &h, &r, "memory");
     }
+    // document sweep: every world of C02 with at most one deviation (valid ones and every planted fault) as the text
+    // of a document: open, token request, change to the same text, shutdown — whatever a document says, the
+    // server lives and answers
+    {
+        let ws = crate::checks::c02::worlds(1);
+        let res: Vec<Option<String>> = ws
+            .par_iter()
+            .map(|w| {
+                let text = w.text();
+                let alpha2 = vec![
+                    Spec { name: "didOpen(a,world)", msg: did_open(A, 1, &text), expect: Expect::Silent },
+                    Spec { name: "semanticTokens(a)", msg: tokens_req(0, A), expect: Expect::Answer },
+                    Spec { name: "didChange(a,[world])", msg: did_change(A, 2, &[text.as_str()]), expect: Expect::Silent },
+                ];
+                let r = run_history(&alpha2, &[0, 1, 2, 1], Box::new(MemSrv::new(Some(vec![0, 1]))));
+                r.failures.first().map(|(k, wh)| format!("{} :: {}", k, wh))
+            })
+            .collect();
+        for (w, r) in ws.iter().zip(res.iter()) {
+            count += 1;
+            ctx.distinct(&format!("world|{}", w.labels.join(",")));
+            if let Some(m) = r {
+                let key = m.split(" :: ").next().unwrap_or("failure").split('/').next().unwrap_or("failure").to_string();
+                ctx.fail(&format!("document-sweep/{}", key), &format!("[{}] {}", w.labels.join(","), m), json!({"mode":"document","text": w.text()}));
+            }
+        }
+        ctx.bounds.insert("document_sweep".into(), json!(format!("{} documents (every C02 world with at most one deviation)", ws.len())));
+    }
     ctx.bounds.insert("periodic_sequences".into(), json!(format!("{} sequences of length 60 (period 1 and 2)", periodic.len())));
     ctx.evaluations = transitions + count;
     ctx.extra.insert("sequences_without_dedup".into(), json!(count));
@@ -365,6 +393,19 @@ pub fn run(ctx: &mut Ctx) {
 }
 
 pub fn replay(case: &Value) -> Result<String, String> {
+    if case["mode"] == json!("document") {
+        let text = case["text"].as_str().ok_or("text")?.to_string();
+        let alpha2 = vec![
+            Spec { name: "didOpen(a,world)", msg: did_open(A, 1, &text), expect: Expect::Silent },
+            Spec { name: "semanticTokens(a)", msg: tokens_req(0, A), expect: Expect::Answer },
+            Spec { name: "didChange(a,[world])", msg: did_change(A, 2, &[text.as_str()]), expect: Expect::Silent },
+        ];
+        let r = run_history(&alpha2, &[0, 1, 2, 1], Box::new(MemSrv::new(Some(vec![0, 1]))));
+        return match r.failures.first() {
+            None => Ok("the server lives and answers".into()),
+            Some((k, w)) => Err(format!("{} :: {}", k, w)),
+        };
+    }
     let alpha = alphabet();
     let hist: Vec<usize> = case["history"]
         .as_array()
